@@ -80,15 +80,15 @@ func (e *executor) do(op Op) (obs *Obs) {
 	}()
 	switch op.Kind {
 	case opGet:
-		v, err := e.sb.Get(op.B, []byte(op.Key))
+		v, err := e.sb.Get(op.B, op.key())
 		obs.Err = errText(err)
 		if err == nil {
 			obs.Present, obs.Val = true, append([]byte{}, v...)
 		}
 	case opPut:
-		obs.Err = errText(e.sb.Put(op.B, []byte(op.Key), op.val()))
+		obs.Err = errText(e.sb.Put(op.B, op.key(), op.val()))
 	case opDel:
-		obs.Err = errText(e.sb.Del(op.B, []byte(op.Key)))
+		obs.Err = errText(e.sb.Del(op.B, op.key()))
 	case opScan, opOpen:
 		slot := op.Slot
 		if op.Kind == opScan {
@@ -264,6 +264,9 @@ func runCase(reader ledger.XMReader, bk *backingDesc, prog []Op, softNilEnd bool
 				case extraInReplay && inR && kind == bkNever:
 					sig = "sandbox|scan-yields-absent-key-that-was-looked-up"
 					detail += fmt.Sprintf(": in the replay the scan yields key %q, which is in the read set only as a never-written key (looked up and found absent)", dk)
+				case m.emptyKey[b]:
+					sig = emptyKeySig
+					detail += " [the execution used the empty key, passed as a nil slice, in this bucket]"
 				case bk.Real && scanHiNil(full, i, op) && inR && kind == bkLive:
 					sig = "sandbox|select-nil-end|backing-vs-replay-disagree"
 					detail += fmt.Sprintf(": key %q is live in the backing state; xmodel.Select(bucket, start, nil) lists nothing, the replay reader lists up to the end of the bucket", dk)
@@ -302,13 +305,20 @@ func runCase(reader ledger.XMReader, bk *backingDesc, prog []Op, softNilEnd bool
 		}
 	}
 	// the replay must not have needed anything beyond the read set it was given
-	have := map[bkey]bool{}
+	have := map[bkey]*ledger.VersionedData{}
 	for _, vd := range rw.RSet {
-		have[bkey{vd.PureData.Bucket, string(vd.PureData.Key)}] = true
+		have[bkey{vd.PureData.Bucket, string(vd.PureData.Key)}] = vd
 	}
 	for _, vd := range rw2.RSet {
-		if k := (bkey{vd.PureData.Bucket, string(vd.PureData.Key)}); !have[k] {
+		k := bkey{vd.PureData.Bucket, string(vd.PureData.Key)}
+		o := have[k]
+		if o == nil {
 			res.prob = &problem{"sandbox|replay-reads-key-outside-read-set", fmt.Sprintf("%s/%q", k.b, k.k)}
+			return res
+		}
+		if !bytes.Equal(o.RefTxid, vd.RefTxid) || o.RefOffset != vd.RefOffset || !bytes.Equal(o.PureData.Value, vd.PureData.Value) {
+			res.prob = &problem{"sandbox|replay-sees-other-version", fmt.Sprintf("%s/%q: pre-execution read %x_%d %q, the replay read %x_%d %q", k.b, k.k,
+				o.RefTxid, o.RefOffset, o.PureData.Value, vd.RefTxid, vd.RefOffset, vd.PureData.Value)}
 			return res
 		}
 	}
